@@ -196,6 +196,34 @@ def programs(tier):
         println(show_int(TCall("Describe", "name", Var("d")))),
     ], Unit))
     out.append({"prog": p, "family": "c17", "ident": "c17:cross-trait-dyn-without-impl", "expect": "reject"})
+    # ---- two traits of the same short name from two packages, both implemented for one local type: every call form runs the
+    # implementation of the trait it names
+    p = Program("c17_same_trait_name_two_packages")
+    p.header = "package Main\nimport LibA\nimport LibB\n"
+    PP = TAdt("P")
+    p.struct("P", [("a", INT32)])
+    p.impl("LibA::Show", PP, [("show", [("self", PP)], INT32, Bin("+", Field(Var("self"), "a"), Int(100)))])
+    p.impl("LibB::Show", PP, [("show", [("self", PP)], INT32, Bin("+", Field(Var("self"), "a"), Int(200)))])
+    QQ = TAdt("Q")
+    p.struct("Q", [("b", INT32)])
+    p.impl("LibA::Show", QQ, [("show", [("self", QQ)], INT32, Bin("+", Field(Var("self"), "b"), Int(1000)))])
+    p.impl("LibB::Show", QQ, [("show", [("self", QQ)], INT32, Bin("+", Field(Var("self"), "b"), Int(2000)))])
+    Tq = TParam("T")
+    p.fn("ga", [("x", Tq)], INT32, TCall("LibA::Show", "show", Var("x")), gens=[("T", ["LibA::Show"])])
+    p.fn("gb", [("x", Tq)], INT32, TCall("LibB::Show", "show", Var("x")), gens=[("T", ["LibB::Show"])])
+    p.fn("da", [("d", TDyn("LibA::Show"))], INT32, TCall("LibA::Show", "show", Var("d")))
+    p.fn("db", [("d", TDyn("LibB::Show"))], INT32, TCall("LibB::Show", "show", Var("d")))
+    p.fn("main", [], UNIT, Block([
+        Let("v", Struct(PP, [("a", Int(5))]), ty=PP),
+        println(show_int(TCall("LibA::Show", "show", Var("v")))), println(show_int(TCall("LibB::Show", "show", Var("v")))),
+        println(show_int(Call("ga", Var("v"), targs=[PP]))), println(show_int(Call("gb", Var("v"), targs=[PP]))),
+        println(show_int(Call("da", ToDyn("LibA::Show", Var("v"))))), println(show_int(Call("db", ToDyn("LibB::Show", Var("v"))))),
+        Let("w", Struct(QQ, [("b", Int(7))]), ty=QQ),
+        println(show_int(TCall("LibA::Show", "show", Var("w")))), println(show_int(TCall("LibB::Show", "show", Var("w")))),
+        println(show_int(Call("ga", Var("w"), targs=[QQ]))), println(show_int(Call("db", ToDyn("LibB::Show", Var("w"))))),
+    ], Unit))
+    out.append({"prog": p, "family": "c17", "ident": "c17:same-trait-name-in-two-packages",
+                "extra_files": {"LibA/lib.gom": "package LibA\n\ntrait Show { fn show(Self) -> int32; }\n", "LibB/lib.gom": "package LibB\n\ntrait Show { fn show(Self) -> int32; }\n"}})
     # ---- rejections: ambiguous method name under two bounds; dyn coercion without an implementation
     p = Program("c17_ambiguous")
     decls(p)
